@@ -83,6 +83,50 @@ def rule_occupant_writers(ck, rid="C13.R2"):
     ck.floor(rid, m, 1, "call sites of the EVSE-level unplug()")
 
 
+ACCESSORS = {   # Interface accessor -> field(s) of the infrastructure description it reports for the given station, in order
+    "max_pilot_signal": ("max_pilot",), "min_pilot_signal": ("min_pilot",), "evse_voltage": ("voltages",), "evse_phase": ("phases",),
+    "allowable_pilot_signals": ("is_continuous", "allowable_pilots"),
+}
+
+
+def rule_accessors(ck, rid="C13.R8"):
+    """what a scheduler is told about one station is that station's own entry of the like-named per-station array: the accessor returns
+    <infrastructure description>.<field>[position of station_id] (position through get_station_index / index), on every path"""
+    repo = ck.repo
+    iface = repo.cls("Interface")
+    n = 0
+    for name, fields in ACCESSORS.items():
+        m = repo.method(iface, name)
+        fl = flow_of(m)
+        sid = m.params[1]
+        rets = [x for x in fl.cfg.nodes if x.kind == "return"]
+        falls = [p_ for p_ in fl.cfg.exit.pred if p_.kind != "return"]
+        ck.require(bool(rets) and not falls, rid, m, name, ok="always returns", bad=f"Interface.{name} can end without returning a value (None is reported to the scheduler)",
+                   sink=f"{name}:returns")
+        for r in rets:
+            n += 1
+            e = fl.expand(r.expr, r) if r.expr is not None else ast.Constant(value=None)
+            parts = list(e.elts) if isinstance(e, ast.Tuple) and len(fields) > 1 else [e]
+            ok = len(parts) == len(fields)
+            why = ""
+            for part, field in zip(parts, fields):
+                x = part
+                while isinstance(x, ast.Call) and isinstance(x.func, ast.Attribute) and x.func.attr in ("tolist", "item", "copy") and not x.args:
+                    x = x.func.value
+                while isinstance(x, ast.Call) and call_name(x) in ("float", "bool", "list", "deepcopy") and len(x.args) == 1:
+                    x = x.args[0]
+                good = isinstance(x, ast.Subscript) and isinstance(x.value, ast.Attribute) and x.value.attr == field and \
+                    canon(x.value.value) in ("self._infrastructure_info()", "self.infrastructure_info()") and \
+                    canon(x.slice) in (f"self._infrastructure_info().get_station_index({sid})", f"self.infrastructure_info().get_station_index({sid})",
+                                       f"self._infrastructure_info().station_ids.index({sid})", f"self._simulator.network.get_station_index({sid})")
+                if not good:
+                    ok = False
+                    why = f"`{src(part, 70)}` is not <infrastructure description>.{field}[position of {sid}]"
+            ck.require(ok, rid, m, r.expr if r.expr is not None else name, ok=f"reports {' / '.join(fields)} of the given station",
+                       bad=f"Interface.{name} must report {' / '.join(fields)} of the station it is asked about: {why}", sink=f"{name}:field")
+    ck.floor(rid, n, 5, "returns of the per-station Interface accessors")
+
+
 def rule_set_pilot_table(ck, rid="C13.R1"):
     """decision table of BaseEVSE.set_pilot: on every accepting path the pilot is latched exactly once (also on a vacant station) and
     a connected EV is charged exactly once with (pilot, voltage, period); a rejecting path ends in the raise with no effect."""
@@ -447,6 +491,7 @@ def run(ck):
     ck.attempt(rule_agreement)
     ck.attempt(rule_finite_normalisation)
     ck.attempt(rule_cache)
+    ck.attempt(rule_accessors)
     # what is advertised stays truthful only if no scheduler can edit the network's cache through an object it was handed
     from .c05 import rule_escape
     ck.attempt(rule_escape, rid="C13.R7")
